@@ -18,6 +18,21 @@ def T(quick, thorough, floor=200, **kw):
 
 
 PROPS = {
+    "C16": T(12000, 300000,
+             rule="dominators: random (mostly directed) multigraph from 21 families (reducible and irreducible flow graphs, "
+                  "unreachable parts), random root, n<=8 (10%: n<=13), one random encoding of 9; articulation points: random "
+                  "undirected multigraph with loops on one encoding of 8; non-trivial = both inputs have >=3 nodes and >=2 edges; distinct = hash of both edge lists"),
+    "C12": T(12000, 300000,
+             rule="random weighted multigraph (21 families incl. disconnected unions, parallel edges of different weight, loops; "
+                  "n<=9, 10%: n<=14; weights 1..2 ties / 0..9 / -5..20; i64 or f64) on one random encoding of 9 for Kruskal and "
+                  "(undirected inputs) one of 8 for Prim, plus from_elements on a StableGraph with a hole; "
+                  "non-trivial = >=3 nodes and >=2 edges; distinct = distinct weighted edge-list hash"),
+    "C11": T(8000, 200000,
+             rule="signed-weight workloads: potential-reweighted digraphs (negative edges, no negative cycle), random signed, one lowered "
+                  "edge, negative self-loop only, convex complete DAG w(i,j)=(j-i)^2 in both insertion orders (also on an "
+                  "order-preserving Graph), undirected with/without a negative edge; n<=7 (10%: n<=11); bellman_ford+find_negative_cycle "
+                  "(f32/f64), spfa (i32/i64/f64), floyd_warshall(_path) (i32/i64/f64) each on one random encoding; "
+                  "non-trivial = >=3 nodes, >=2 edges and at least one negative edge; distinct = distinct weighted edge-list hash"),
     "C10": T(10000, 250000,
              rule="random non-negatively weighted multigraph (21 families, n<=7, 10%: n<=12; weight ranges 0..9, 1..2 ties, "
                   "0..1 zero-cost cycles, 0..30) on one random encoding of 9, cost type u32/i64/f32/f64; dijkstra with and "
